@@ -6,7 +6,6 @@ import (
 
 	"github.com/9elements/converged-security-suite/v2/pkg/provisioning/bootguard"
 	"github.com/linuxboot/fiano/pkg/intel/metadata/common/bgheader"
-	"verifharness/gal"
 )
 
 func (r *run) detectAndStruct() {
@@ -19,7 +18,7 @@ func (r *run) detectAndStruct() {
 		if err == nil {
 			res = fmt.Sprintf("(Some %d)", int(v))
 		}
-		idx := c.Add("detect", fmt.Sprintf("CDetect %s %s", gal.Bytes(file), res), map[string]interface{}{"file_hex": hexs(file)}, len(file) >= 9)
+		idx := c.Add("detect", fmt.Sprintf("CDetect %s %s", bz(file), res), map[string]interface{}{"file_hex": hexs(file)}, len(file) >= 9)
 		// oracle: a file is parsed as 1.0 iff its version byte is 0x1?, as 2.0 iff >= 0x20
 		want := 0
 		if len(file) >= 9 {
@@ -92,20 +91,7 @@ func (r *run) detectAndStruct() {
 		}
 	}
 	// ---- VerifyKM / VerifyBPM on BootGuard values (no file): known and unknown Version
-	structCase := func(b *bootguard.BootGuard, version int, doc int, pm pman, vt []vtEntry, descr map[string]interface{}) int {
-		var err error
-		out := oOk
-		p, _ := recoverCall(func() { err = verifyDoc(b, doc) })
-		switch {
-		case p:
-			out = oPanic
-		case err != nil:
-			out = oErr
-		}
-		descr["outcome"] = out
-		c.Add("verify/struct", fmt.Sprintf("CVerifyStruct %d %d %s %s %s", version, doc, pm.lit(), vtLit(vt), obsUnit(out)), descr, true)
-		return out
-	}
+	structCase := r.structCase
 	n := 0
 	for _, sf := range r.signed {
 		if n >= c.Scale(10, 40) {
@@ -120,14 +106,7 @@ func (r *run) detectAndStruct() {
 		if err != nil {
 			continue
 		}
-		var vt []vtEntry
-		seen := map[int]bool{}
-		for _, k := range []int{pm.keysig, pm.pmse, pm.pmseks} {
-			if k <= len(pm.ser) && !seen[k] {
-				seen[k] = true
-				vt = append(vt, vtEntry{pm.ser[:k], ksVerify(b, sf.doc, pm.ser[:k])})
-			}
-		}
+		vt := structVT(b, sf.doc, pm)
 		structCase(b, sf.gen, sf.doc, pm, vt, map[string]interface{}{"file": sf.name, "version": sf.gen})
 		// same value with a Version the switch does not know: logs and returns nil
 		for _, v := range []int{0, 3, 255} {
@@ -138,4 +117,38 @@ func (r *run) detectAndStruct() {
 			}
 		}
 	}
+}
+
+// structCase: VerifyKM / VerifyBPM on a BootGuard VALUE (no file), as a
+// correspondence case; returns the outcome.
+func (r *run) structCase(b *bootguard.BootGuard, version int, doc int, pm pman, vt []vtEntry, descr map[string]interface{}) int {
+	c := r.c
+	var err error
+	out := oOk
+	p, _ := recoverCall(func() { err = verifyDoc(b, doc) })
+	switch {
+	case p:
+		out = oPanic
+	case err != nil:
+		out = oErr
+	}
+	descr["outcome"] = out
+	pl := &pool{}
+	c.Add("verify/struct", pl.wrap(fmt.Sprintf("CVerifyStruct %d %d %s %s %s", version, doc, pm.litIn(pl), vtLit(vt, pl), obsUnit(out))), descr, true)
+	return out
+}
+
+// structVT tabulates fiano's KeySignature.Verify of the value on the prefixes the glue may cut
+func structVT(b *bootguard.BootGuard, doc int, pm pman) []vtEntry {
+	var vt []vtEntry
+	seen := map[int]bool{}
+	for _, k := range []int{pm.keysig, pm.pmse, pm.pmseks} {
+		if k <= len(pm.ser) && !seen[k] {
+			seen[k] = true
+			ok := false
+			recoverCall(func() { ok = ksVerify(b, doc, pm.ser[:k]) })
+			vt = append(vt, vtEntry{pm.ser[:k], ok})
+		}
+	}
+	return vt
 }
